@@ -52,6 +52,7 @@ func ghostSegmentsOrdered(w *Writer) bool {
 //@   ensures forall(0, len(w.sealedBuffers), func(j int) bool { return result.sealedBuffers[j] != nil && same(result.sealedBuffers[j].buf, w.sealedBuffers[j].buf) && result.sealedBuffers[j].latestSeqNum == w.sealedBuffers[j].latestSeqNum })
 //@   ensures result.sealedBuffers[len(w.sealedBuffers)] != nil && same(result.sealedBuffers[len(w.sealedBuffers)].buf, w.activeBuffer.buf) && result.sealedBuffers[len(w.sealedBuffers)].latestSeqNum == w.latestSeqNum
 //@   ensures result.activeBuffer != nil && len(result.activeBuffer.buf) == 0
+//@   ensures forall(0, len(result.sealedBuffers), func(j int) bool { return result.sealedBuffers[j] != w.activeBuffer && forall(0, len(w.sealedBuffers), func(i int) bool { return result.sealedBuffers[j] != w.sealedBuffers[i] }) })
 //@   ensures ghostSegmentsOrdered(result)
 //@   ensures same(w.sealedBuffers, old(w.sealedBuffers)) && w.activeBuffer == old(w.activeBuffer) && w.latestSeqNum == old(w.latestSeqNum)
 //@   loop 0:
@@ -59,7 +60,10 @@ func ghostSegmentsOrdered(w *Writer) bool {
 //@     invariant same(w.sealedBuffers, old(w.sealedBuffers)) && nextLog.latestSeqNum == w.latestSeqNum && nextLog.id == w.id + 1 && nextLog.maxSize == w.maxSize
 //@     invariant fresh(nextLog) && nextLog.activeBuffer != nil && !nextLog.sealedFlag
 //@     invariant forall(0, idx_, func(j int) bool { return nextLog.sealedBuffers[j] != nil && same(nextLog.sealedBuffers[j].buf, w.sealedBuffers[j].buf) && nextLog.sealedBuffers[j].latestSeqNum == w.sealedBuffers[j].latestSeqNum })
+//@     invariant forall(0, idx_, func(j int) bool { return nextLog.sealedBuffers[j] != w.activeBuffer && forall(0, len(w.sealedBuffers), func(i int) bool { return nextLog.sealedBuffers[j] != w.sealedBuffers[i] }) })
 
+// (Rotate: the new writer owns its segments - it shares no segment object with the sealed
+// writer, whose Save consumes them.)
 // Truncate(s): only whole leading segments whose mark is <= s are dropped;
 // every segment holding an operation above s stays, in order.
 //@ func Writer.Truncate
